@@ -77,3 +77,31 @@ fn c32_twin_must_fail() {
     let _ = calc_excess_blob_gas(e, u, kani::any());
     assert!(false);
 }
+
+// ---------------------------------------------------------------------------------------------------------
+// The price a block environment *stores* is the price of the (excess, schedule) it was last given — also when the
+// environment object is reused. `calc_blob_gasprice` is replaced by an injective stand-in of its two arguments, so the
+// harness decides WHICH arguments reach the price function on every call path (the function itself is decided above).
+pub fn stub_price(excess_blob_gas: u64, is_prague: bool) -> u128 {
+    ((excess_blob_gas as u128) << 1) | (is_prague as u128)
+}
+
+#[kani::proof]
+#[kani::stub(revm_primitives::calc_blob_gasprice, stub_price)]
+fn c32_block_env_price_follows_last_setting() {
+    use revm_primitives::{BlobExcessGasAndPrice, BlockEnv};
+    let (x1, p1, x2, p2): (u64, bool, u64, bool) = (kani::any(), kani::any(), kani::any(), kani::any());
+    let first_is_fresh: bool = kani::any();
+    let mut b = BlockEnv::default();
+    if !first_is_fresh {
+        b.set_blob_excess_gas_and_price(x1, p1);
+        assert!(b.get_blob_excess_gas() == Some(x1) && b.get_blob_gasprice() == Some(stub_price(x1, p1)));
+    }
+    b.set_blob_excess_gas_and_price(x2, p2);
+    assert!(b.get_blob_excess_gas() == Some(x2), "stored excess blob gas is not the one last set");
+    assert!(b.get_blob_gasprice() == Some(stub_price(x2, p2)), "stored blob gas price is not the price of the (excess, schedule) last set");
+    let n = BlobExcessGasAndPrice::new(x2, p2);
+    assert!(n.excess_blob_gas == x2 && n.blob_gasprice == stub_price(x2, p2), "BlobExcessGasAndPrice::new does not price its own arguments");
+    kani::cover!(!first_is_fresh && x1 == x2 && p1 != p2);
+    kani::cover!(first_is_fresh);
+}
